@@ -132,3 +132,32 @@ def reporting_args(n: Int, end: Int, max_days: Int):
     data = sorted_frame(n)
     out = outcome(GRD, data, None, timestamp(end), max_days)
     check("C20.rep.args", out.raises("ValueError"))
+
+
+@harness("C20.baseline.both", prop="C20")
+def baseline_both(n: Int, start: Int, end: Int, p: Int):
+    """both limits explicit (max_days=None): rows inside [start, end], the two gap warnings independent"""
+    data = sorted_frame(n)
+    out = outcome(GBD, data, timestamp(start), timestamp(end), None)
+    check("C20.base.only_dedicated_error", Or(out.returned, out.raises("NoBaselineDataError")))
+    if out.returned:
+        res = out.value[0]
+        ws = names(out.value[1])
+        assume(And(res.lo <= p, p < res.hi))
+        check("C20.base.both.inside", And(label_at(p) >= start, label_at(p) <= end))
+        check("C20.base.both.warn.end", iff("eemeter.get_baseline_data.gap_at_baseline_end" in ws, label_at(n - 1) < end))
+        check("C20.base.both.warn.start", iff("eemeter.get_baseline_data.gap_at_baseline_start" in ws, start < label_at(0)))
+
+
+@harness("C20.reporting.both", prop="C20")
+def reporting_both(n: Int, start: Int, end: Int, p: Int):
+    data = sorted_frame(n)
+    out = outcome(GRD, data, timestamp(start), timestamp(end), None)
+    check("C20.rep.only_dedicated_error", Or(out.returned, out.raises("NoReportingDataError")))
+    if out.returned:
+        res = out.value[0]
+        ws = names(out.value[1])
+        assume(And(res.lo <= p, p < res.hi))
+        check("C20.rep.both.inside", And(label_at(p) >= start, label_at(p) <= end))
+        check("C20.rep.both.warn.end", iff("eemeter.get_reporting_data.gap_at_reporting_end" in ws, label_at(n - 1) < end))
+        check("C20.rep.both.warn.start", iff("eemeter.get_reporting_data.gap_at_reporting_start" in ws, start < label_at(0)))
